@@ -254,6 +254,13 @@ func c12Gen(r *Rng, n int) []string {
 		cfg := jsonShape
 		cfg.MaxDepth = 3
 		m := r.RootMap(&cfg)
+		wsKey := ""
+		if r.P(6) {
+			// keys are taken as they are written: white space at their edges belongs to them
+			wsKey = r.Pick([]string{" id", "tag ", "\u00a0", " ", "\tk", "a "})
+			m[wsKey] = r.Scalar(&cfg)
+			m[strings.TrimSpace(wsKey)+"x"[:0]] = "trimmed twin"
+		}
 		np := 1 + r.Intn(4)
 		var pairs []string
 		for i := 0; i < np; i++ {
@@ -266,6 +273,9 @@ func c12Gen(r *Rng, n int) []string {
 				pairs = append(pairs, r.Pick([]string{"", "a:b:c", ":x", "a:", "a:b*", "a:b[0]", ":"}))
 			default:
 				pairs = append(pairs, old+":"+nk)
+			}
+			if wsKey != "" && i == 0 {
+				pairs[len(pairs)-1] = r.Pick([]string{wsKey + ":" + nk, old + ":" + wsKey, wsKey})
 			}
 		}
 		if r.P(12) {
